@@ -15,6 +15,7 @@ from ..core import Ctx, Rule
 from ..facts import ShapeError, call_name, calls_in, dotted, kwarg, norm, walk_no_nested
 from ..lang import lang
 from ..tables import Inst, Opaque, decide, module_dict
+from .boundary_rules import VALUE, scalar_arms
 from ..templates import field, flatten_list, is_name_node, is_node, single_assignments, template
 
 PARSER = 'fpy2/frontend/parser.py'
@@ -671,6 +672,7 @@ RULES = [
     Rule('C04.F1', 'context threading: ctx=__ctx__ on every table-driven call, __ctx__ second in __fpy_call, stored only by with-blocks', f1_context_threading, 18, 'F'),
     Rule('C04.P1', 'with-block shape: try [stash, REAL, bind] + body, finally restore, no handlers', p1_with_block, 6, 'P,F'),
     Rule('C04.T2', 'callee context: declared, else passed, else IEEE double', t2_func_ctx, 7, 'T'),
+    Rule('C04.T3', 'boundary table: a Python bool/int/float/RealFloat/Fraction argument enters as exactly the number it is', scalar_arms, 8, 'T'),
     Rule('C04.F2', 'FPy-to-FPy calls share arguments; nothing rounds on entry; boundary conversion only when convert', f2_call_boundary, 6, 'F'),
     Rule('C04.F3', 'strict helpers are used for index, slice, zip, len, any/all, min/max, ==, orderings, range', f3_strict_helpers, 15, 'F'),
 ]
@@ -678,6 +680,15 @@ RULES = [
 from ..selftest import Mutant  # noqa: E402
 
 MUTANTS = [
+    Mutant('int-argument-through-double', VALUE, "        case int():\n            return Float.from_int(arg, ctx=INTEGER, checked=False)\n        case float():\n            return Float.from_float(arg, ctx=FP64, checked=False)",
+           "        case int() | float():\n            return Float.from_float(float(arg), ctx=FP64, checked=False)", 'C04.T3', 'seeded change C04c'),
+    Mutant('int-argument-rounded-to-single', VALUE, "            return Float.from_int(arg, ctx=INTEGER, checked=False)", "            return Float.from_int(arg, ctx=FP32, checked=False)", 'C04.T3'),
+    Mutant('bool-after-int', VALUE, "        case bool() | Float() | Fraction() | Context() | Foreign():\n            return arg\n        case RealFloat():\n            return Float.from_real(arg, ctx=REAL)\n        case int():\n            return Float.from_int(arg, ctx=INTEGER, checked=False)",
+           "        case Float() | Fraction() | Context() | Foreign():\n            return arg\n        case RealFloat():\n            return Float.from_real(arg, ctx=REAL)\n        case int():\n            return Float.from_int(arg, ctx=INTEGER, checked=False)\n        case bool():\n            return arg", 'C04.T3'),
+    Mutant('fraction-argument-to-float', VALUE, "        case bool() | Float() | Fraction() | Context() | Foreign():\n            return arg",
+           "        case bool() | Float() | Context() | Foreign():\n            return arg\n        case Fraction():\n            return Float.from_float(float(arg), ctx=FP64, checked=False)", 'C04.T3'),
+    Mutant('int-argument-under-real', VALUE, "            return Float.from_int(arg, ctx=INTEGER, checked=False)", "            return Float.from_int(arg, ctx=REAL, checked=False)", 'C04.T3',
+           'REAL holds every integer too', expect='silent'),
     Mutant('empty-rows-shared', OPS, "    if len(dims_list) == 1:\n        return [UNINIT for _ in range(dims_list[0])]\n    else:\n        return [_empty(dims_list[1:]) for _ in range(dims_list[0])]",
            "    result: list = [UNINIT for _ in range(dims_list[-1])]\n    for n in reversed(dims_list[:-1]):\n        result = [list(result) for _ in range(n)]\n    return result", 'C04.G1',
            'seeded change C04b: inside-out construction with shallow copies'),
